@@ -14,3 +14,19 @@ package common_info
 //@   ensures result == cmpVerdict(fn, arg0, arg1)
 //@   note assumed: registered comparators are pure and deterministic
 //@ end
+
+// (added by helper "alloc", with main's permission) Error() only formats a message; it is called by
+// actions/common.handleFailedTaskAllocation on the failure path of the gang protocol, right before Rollback.
+//@ func (*TasksFitErrors).Error
+//@   trusted
+//@   note message formatting (a closure building a reason histogram + sort.Strings + fmt): closure call outside the subset; reads f only (a nil receiver is the caller's no-panic matter)
+//@   pure
+//@ end
+
+// (added by helper "alloc") merge of two per-node error maps: executed in the caller (no assumption introduced);
+// callers: podgroup_info.(*PodGroupInfo).AddTaskFitErrors <- framework.(*Session).FittingNode, common.allocateTask.
+//@ func (*TasksFitErrors).AddNodeErrors
+//@   inline
+//@   loop 1
+//@     invariant true
+//@ end
